@@ -253,6 +253,6 @@ pub fn run(tier: Tier) -> i32 {
     let mut ctx = Ctx::new("C02", tier);
     ctx.assume("trusted base: tokio's paused clock, the in-memory fabric, quinn/rustls correctness below the anemo layer");
     ctx.assume("errors are allowed outcomes under faults; a fault-free case with <99% success is reported inconclusive, not as a violation");
-    ctx.run_part(Traffic(tier.pick(300_000, 4_000_000)), tier.pick(2_500, 60_000));
+    ctx.run_part(Traffic(tier.pick(300_000, 4_000_000)), tier.pick(8_000, 150_000));
     ctx.finish()
 }
